@@ -11,3 +11,4 @@ INVARIANT BigConsistent
 INVARIANT InterleaveNeutral
 INVARIANT OddWsRejected
 CONSTANT Thorough = FALSE
+INVARIANT ExtMinimal
